@@ -237,14 +237,30 @@ def gen_spec(rng, langs=None, npkgs=None, shapes=None, flags=None):
             {"name": "Panel", "def": {"kind": "struct", "fields": [
                 {"name": "type", "type": {"t": "string"}, "required": True},
                 {"name": "title", "type": {"t": "string"}, "required": False},
+                {"name": "description", "type": {"t": "string"}, "required": False},
+                {"name": "transparent", "type": {"t": "boolean"}, "required": False},
+                {"name": "repeat", "type": {"t": "string"}, "required": False},
                 {"name": "options", "type": {"t": "any"}, "required": False}]}}]})
-        for ident in ("pluga", "plugb"):
+        # five options are inherited from dash.Panel (not a power of two: a slice of them has spare
+        # capacity); every plugin adds two or three of its own
+        for ident, n in (("pluga", 2), ("plugb", 3)):
             inputs.append({"pkg": ident, "format": "jsonschema", "file": "schemas/%s.json" % ident, "transforms": [],
                            "metadata": {"kind": "composable", "variant": "panelcfg", "identifier": ident},
-                           "defs": [{"name": "Options", "def": gen_struct(rng, [], 2)}]})
+                           "defs": [{"name": "Options", "def": gen_struct(rng, [], n)}]})
         spec.setdefault("veneers", []).append({"language": "all", "package": "dash", "builders": [
             {"compose": {"by_variant": "panelcfg", "source_builder_name": "dash.Panel", "plugin_discriminator_field": "type",
                          "composition_map": {"Options": "options"}, "composed_builder_name": "Panel"}}]})
+    if shapes.get("same_named_append") and spec.get("builders"):
+        # two unrelated packages define an object of the same name with an array field of the same name,
+        # and a veneer turns that option into an `append` option in both: same builder name, same
+        # option name, same path needing a nil check - in different packages
+        for inp in inputs[:2]:
+            inp["defs"].append({"name": "Settings", "def": {"kind": "struct", "fields": [
+                {"name": "title", "type": {"t": "string"}, "required": False},
+                {"name": "tags", "type": {"t": "array", "of": {"t": "string"}}, "required": False}]}})
+            link_unreferenced(inp["defs"])
+            spec.setdefault("veneers", []).append({"language": "all", "package": inp["pkg"], "options": [
+                {"array_to_append": {"by_name": "Settings.tags"}}]})
     if shapes.get("colliding_names"):
         # the same definition name (different content) in two different packages
         for inp in inputs[:2]:
@@ -362,7 +378,8 @@ def render(spec):
 
 
 SHAPE_KEYS = ["two_discriminators", "struct_default", "nested_params", "set_default_twice", "colliding_names", "openapi",
-              "factories", "compose", "config_maps", "rename_root", "intersection", "mutual_params", "veneer_levels"]
+              "factories", "compose", "config_maps", "rename_root", "intersection", "mutual_params", "veneer_levels",
+              "same_named_append"]
 
 
 def gen_case(rng, langs=None, shapes=None, flags=None, npkgs=None):
